@@ -24,6 +24,7 @@ import (
 	"encoding/hex"
 	"encoding/json"
 	"fmt"
+	"github.com/cloudwego/hertz/pkg/app/client/retry"
 	"io"
 	"mime"
 	"mime/multipart"
@@ -232,6 +233,7 @@ func bodySpecs(thorough bool) []bodySpec {
 		out = append(out, bodySpec{bStreamLimited, 4097, st})
 	}
 	out = append(out, bodySpec{bStreamUnknown, 1, 2}, bodySpec{bStreamUnknown, 4097, 3})
+	out = append(out, bodySpec{bStreamLimited, 5, 2}, bodySpec{bStreamLimited, 4097, 3})
 	out = append(out, bodySpec{bForm, 0, 0}, bodySpec{bMultipart, 0, 0}, bodySpec{bMultipartFile, 0, 0}, bodySpec{bMultipartFile, 0, 1}, bodySpec{bMultipartFile, 0, 2})
 	return out
 }
@@ -418,8 +420,13 @@ func build(req *protocol.Request, rc ReqCase) *intent {
 		}
 	case bStreamLimited:
 		in.body = pat(b.Size, 4)
-		more := append(append([]byte(nil), in.body...), "MUST-NOT-BE-SENT"...)
-		req.SetBodyStream(&io.LimitedReader{R: reader(more, b.Style), N: int64(b.Size)}, -1)
+		if b.Style >= 2 {
+			// "at most N": the reader ends 1019 bytes before the limit
+			req.SetBodyStream(&io.LimitedReader{R: reader(in.body, b.Style%2), N: int64(b.Size + 1019)}, -1)
+		} else {
+			more := append(append([]byte(nil), in.body...), "MUST-NOT-BE-SENT"...)
+			req.SetBodyStream(&io.LimitedReader{R: reader(more, b.Style), N: int64(b.Size)}, -1)
+		}
 	case bForm:
 		in.form = url.Values{}
 		for _, kv := range formPairs {
@@ -627,8 +634,12 @@ type Case struct {
 	// Stale (pairs): the server closes the kept-alive connection after the first exchange; the second request is written
 	// to the dead connection first and - if the client retries it - again to a new connection. Whatever reaches the new
 	// connection must be the complete second request (or Do reports an error).
-	Stale bool      `json:"stale,omitempty"`
-	Resp  *RespCase `json:"resp,omitempty"`
+	Stale bool `json:"stale,omitempty"`
+	// CustomRetry (stale pairs): the client is configured with a RetryIfFunc that always agrees and two attempts
+	CustomRetry bool `json:"custom_retry,omitempty"`
+	// Dies (single requests, with CustomRetry): the first connection takes the request and is closed by the peer without an answer; a second connection answers
+	Dies bool      `json:"dies,omitempty"`
+	Resp *RespCase `json:"resp,omitempty"`
 }
 
 type violation struct {
@@ -660,7 +671,15 @@ func (w *worker) runRequests(cs Case) (vs []violation, outcome string) {
 		sc.Next = append(sc.Next, [][]byte{[]byte(respOK)})
 	}
 	var spare []*netsim.ScriptConn
+	if cs.Dies {
+		sc = netsim.NewScriptConn(nil, netsim.EndEOF)
+	}
 	conns := []*netsim.ScriptConn{sc}
+	if cs.Dies {
+		s2 := netsim.NewScriptConn([][]byte{[]byte(respOK)}, netsim.EndEOF)
+		spare = append(spare, s2)
+		conns = append(conns, s2)
+	}
 	for i := 1; i < len(rcs); i++ {
 		s2 := netsim.NewScriptConn([][]byte{[]byte(respOK)}, netsim.EndEOF)
 		spare = append(spare, s2)
@@ -668,6 +687,11 @@ func (w *worker) runRequests(cs Case) (vs []violation, outcome string) {
 	}
 	w.cl.Reset(conns...)
 	defer w.cl.Reset()
+	if cs.CustomRetry {
+		w.cl.HC.ClientOptions.RetryIfFunc = func(req *protocol.Request, resp *protocol.Response, err error) bool { return true }
+		w.cl.HC.ClientOptions.RetryConfig = &retry.Config{MaxAttemptTimes: 2}
+		defer func() { w.cl.HC.ClientOptions.RetryIfFunc, w.cl.HC.ClientOptions.RetryConfig = nil, nil }()
+	}
 	var ins []*intent
 	recycled := &protocol.Request{} // per case, so that a case is a complete history and replays on its own
 	for i, rc := range rcs {
@@ -682,7 +706,7 @@ func (w *worker) runRequests(cs Case) (vs []violation, outcome string) {
 		in := build(req, rc)
 		ins = append(ins, in)
 		o := w.cl.Do(req)
-		if cs.Stale && i > 0 && o.Err != "" && o.Panic == "" {
+		if (cs.Stale && i > 0 || cs.Dies) && o.Err != "" && o.Panic == "" {
 			return vs, "stale-connection-error" // not retried: the caller is told, nothing wrong reached a server
 		}
 		if o.Err != "" || o.Panic != "" || o.Status != 200 {
@@ -692,6 +716,9 @@ func (w *worker) runRequests(cs Case) (vs []violation, outcome string) {
 	}
 	var out []byte
 	for ci, s := range conns {
+		if cs.Dies && ci == 0 {
+			continue // the connection that died: what went to it was never answered
+		}
 		if cs.Stale && ci == 0 {
 			// of the first connection only the first request counts: what the client wrote to it afterwards went to a dead peer
 			if m, err := httpref.ParseRequest(s.Out, 0); err == nil {
@@ -1019,6 +1046,9 @@ type RespCase struct {
 	// Skip: the caller sets Response.SkipBody for the first exchange (it wants status and header only); that exchange
 	// is judged by "no panic" alone, the following exchange on the same client must come back intact
 	Skip bool `json:"skip,omitempty"`
+	// Stall (close-delimited framing): the peer sends the head and half of the body and then stays silent (the client's
+	// read timeout fires): what was read is not the body, the call (or the read of the stream) has to fail
+	Stall bool `json:"stall,omitempty"`
 }
 
 func (r RespCase) String() string {
@@ -1344,6 +1374,10 @@ func (w *worker) runResponse(rc RespCase) (vs []violation, outcome string) {
 	wire2, _, ex2 := render(rc2)
 
 	sc := netsim.NewScriptConn(segment(wire, headLen, rc.Deliver), netsim.EndEOF)
+	if rc.Stall {
+		cut := headLen + (len(wire)-headLen)/2
+		sc = netsim.NewScriptConn([][]byte{append([]byte(nil), wire[:cut]...)}, netsim.EndTimeout)
+	}
 	sc.Next = [][][]byte{{append([]byte(nil), wire2...)}}
 	sc2 := netsim.NewScriptConn([][]byte{append([]byte(nil), wire2...)}, netsim.EndEOF)
 	hc := w.cl.HC
@@ -1357,7 +1391,13 @@ func (w *worker) runResponse(rc RespCase) (vs []violation, outcome string) {
 
 	w.cl.SkipBodyOnce = rc.Skip
 	o := w.cl.Do(requestFor(rc, "r1"))
-	if rc.Skip {
+	if rc.Stall {
+		feat += "|stalled"
+		outcome = "stall"
+		if o.Panic != "" || (o.Err == "" && o.BodyErr == "") {
+			vs = append(vs, violation{"response|truncated-body-returned-as-complete|" + feat, fmt.Sprintf("response {%v}: the peer stalled after half of a close-delimited body and the read timed out, but the call returned nil with a %d-byte body (panic=%q)", rc, len(o.Body), o.Panic)})
+		}
+	} else if rc.Skip {
 		feat += "|skip-body"
 		outcome = "skip"
 		if o.Panic != "" {
@@ -1421,6 +1461,9 @@ func requestCases(thorough bool) []Case {
 						rc := ReqCase{Method: m, URL: u, Hdr: h, Body: b, NoNormHdr: cfg&1 != 0, NoNormPath: cfg&2 != 0, Proxy: cfg&4 != 0}
 						if validReq(rc) {
 							out = append(out, Case{Side: "request", Reqs: []ReqCase{rc}})
+							if cfg == 0 && h == hNone && u == 0 {
+								out = append(out, Case{Side: "request", Reqs: []ReqCase{rc}, CustomRetry: true, Dies: true})
+							}
 						}
 					}
 				}
@@ -1466,6 +1509,9 @@ func pairCases(thorough bool) []Case {
 								s2.Method = m2
 								if validReq(s2) {
 									out = append(out, Case{Side: "pair", Reqs: []ReqCase{first, s2}, Stale: true})
+									if b.Kind == bNone {
+										out = append(out, Case{Side: "pair", Reqs: []ReqCase{first, s2}, Stale: true, CustomRetry: true})
+									}
 								}
 							}
 						}
@@ -1517,6 +1563,11 @@ func responseCases(thorough bool) []Case {
 								for sec := range seconds {
 									rc := RespCase{Framing: f.framing, Status: f.status, Size: n, Part: f.part, Trailers: f.trailers, Hdr: hdr, Stream: stream, Max: max, NoNorm: nonorm, Deliver: d, Second: sec}
 									out = append(out, Case{Side: "response", Resp: &rc})
+									if (f.framing == fClose11 || f.framing == fClose10) && hdr == 0 && max == 0 && !nonorm && d == 0 && n >= 2 {
+										rst := rc
+										rst.Stall = true
+										out = append(out, Case{Side: "response", Resp: &rst})
+									}
 									if hdr == 0 && max == 0 && !nonorm && (d == 0 || d == 2) && (n == 0 || n == 2 || n == 4097) {
 										// the caller does not want this body (Response.SkipBody): the next exchange must still be intact
 										rs := rc
